@@ -431,6 +431,33 @@ theorem cond_shape (nm : String) (slot : Nat) (tr ar br : Rep) :
       ["double " ++ nm ++ ";", "if (" ++ tr.ce.render ++ ")", nm ++ " = " ++ (setVarRhs .double ar).render ++ ";",
        "else", nm ++ " = " ++ (setVarRhs .double br).render ++ ";"] := ⟨rfl, rfl⟩
 
+/-- `visit_BoolOp` (two operands): the `bool` result variable holds the truth value of Python's `a and b` /
+`a or b` (Python itself returns the deciding *operand*; the generated code its truth value — `and`/`or` are not among
+the operators the property quantifies over). -/
+theorem boolop_truth (isAnd : Bool) (a b : Expr) (ar br : Rep) (ha : translate a = .ok ar) (hb : translate b = .ok br)
+    (hd : a.noFloatMod = true ∧ a.noFloatNot = true ∧ b.noFloatMod = true ∧ b.noFloatNot = true)
+    (env : Env N) (hm : a.modNonneg env = true ∧ b.modNonneg env = true)
+    (pa pb : PV N) (hpa : evalPy true env a = some pa) (hpb : evalPy true env b = some pb) :
+    ∃ pv, evalBoolOpPy true isAnd env a b = some pv ∧
+      evalBoolOpC isAnd env (setVarRhs .bool ar) (setVarRhs .bool br) = some pv.truthy := by
+  obtain ⟨ca, h1, h2⟩ := expr_correct_partial a ar ha hd.1 hd.2.1 env hm.1 pa hpa
+  obtain ⟨cb, h3, h4⟩ := expr_correct_partial b br hb hd.2.2.1 hd.2.2.2 env hm.2 pb hpb
+  have s1 := setVar_value .bool ar env ca h1
+  have s2 := setVar_value .bool br env cb h3
+  have ta : pa.truthy = ca.truthy := by rw [← h2, toPy_truthy]
+  have tb : pb.truthy = cb.truthy := by rw [← h4, toPy_truthy]
+  cases e1 : evalC env (setVarRhs .bool ar) with
+  | none => simp [e1] at s1
+  | some v1 =>
+    cases e2 : evalC env (setVarRhs .bool br) with
+    | none => simp [e2] at s2
+    | some v2 =>
+      simp [e1] at s1; simp [e2] at s2
+      have t1 : (convert CT.bool v1).truthy = ca.truthy := by rw [s1, truthy_convert_bool]
+      have t2 : (convert CT.bool v2).truthy = cb.truthy := by rw [s2, truthy_convert_bool]
+      simp only [evalBoolOpPy, evalBoolOpC, hpa, hpb, e1, e2, t1, t2, ta]
+      cases isAnd <;> cases h : ca.truthy <;> simp [h, tb, ta]
+
 /-! ## where the code violates the statement -/
 
 /-- **Exclusion A.** `j.d() % 2`: accepted, emitted as `(j->d()%2)` declared `double` — not C++ (`%` needs
